@@ -40,7 +40,17 @@ class C17(SamplerProp):
                   'runs with the same seed return equal graphs.')
     TECHNIQUE = 'symbolic execution of two-run sampler histories with RNG stream R(seed,k,n), target and masses symbolic; arithmetic + equality-of-runs oracle; z3'
 
+    def _decoy(self, M, shape):
+        """an earlier sampler in the same process whose fragments carry the same names but other bodies"""
+        cfg = CONFIGS[shape['cfg']]
+        if not cfg['aa'] or cfg['kw'].get('fragment_masses'):
+            return
+        names = [d.lstrip('#').split('=', 1)[0] for d in cfg['frags'][1:-1].split(',#')]
+        text = '{' + ','.join('#%s=[$]CCCCCC[$]' % n for n in names) + '}'
+        core.guard(M.sample.MoleculeSampler.from_fragment_string, text, polymer_reactivities={'$': 1.0}, all_atom=True, seed=3)
+
     def execute(self, M, shape, inp):
+        self._decoy(M, shape)
         if getattr(M, 'is_shadow', False):
             r1 = core.guard(self._run_once, M, shape, inp, 7, True)
             r2 = core.guard(self._run_once, M, shape, inp, 7, True)
